@@ -15,6 +15,7 @@ import (
 	"fmt"
 	"math/rand"
 	"os"
+	"runtime/debug"
 	"strings"
 	"sync"
 	"time"
@@ -62,6 +63,8 @@ type Ev struct {
 	Moves  *[]int    `json:"moves,omitempty"`
 	FenOut string    `json:"fenOut,omitempty"`
 	Best   string    `json:"best,omitempty"`
+	Msg    string    `json:"msg,omitempty"`
+	Engine *bool     `json:"engine,omitempty"`
 }
 
 type rec struct {
@@ -897,6 +900,41 @@ func (r *rec) list(corpus []string) {
 	}
 }
 
+// panicInEngine: is the innermost non-runtime frame of the panic inside the chess-3 module?
+func panicInEngine(st string) bool {
+	lines := strings.Split(st, "\n")
+	seenPanic := false
+	for _, l := range lines {
+		l = strings.TrimSpace(l)
+		if strings.HasPrefix(l, "panic(") {
+			seenPanic = true
+			continue
+		}
+		if !seenPanic || !strings.HasPrefix(l, "/") {
+			continue
+		}
+		if strings.Contains(l, "/runtime/") || strings.Contains(l, "/src/") && strings.Contains(l, "go1.") {
+			continue
+		}
+		return !strings.Contains(l, "/verif/")
+	}
+	return false
+}
+
+func firstFrames(st string) string {
+	var keep []string
+	for _, l := range strings.Split(st, "\n") {
+		l = strings.TrimSpace(l)
+		if strings.HasPrefix(l, "/") && !strings.Contains(l, "/runtime/") {
+			keep = append(keep, l)
+			if len(keep) >= 4 {
+				break
+			}
+		}
+	}
+	return strings.Join(keep, " <- ")
+}
+
 func main() {
 	mode := flag.String("mode", "play", "play|positions|walk|transp|shuffle|script")
 	obs := flag.String("obs", "legal", "comma separated observations: legal,gen,status,rep,hash,hashes,fen,canon")
@@ -926,6 +964,18 @@ func main() {
 			r.obs[o] = true
 		}
 	}
+	// a panic inside the engine during a valid call sequence is an observation, not a recorder failure
+	defer func() {
+		if x := recover(); x != nil {
+			st := string(debug.Stack())
+			engine := panicInEngine(st)
+			r.emit(&Ev{Ev: "panic", Msg: fmt.Sprint(x) + " | " + firstFrames(st), Engine: &engine, Fen: r.root})
+			w.Flush()
+			f.Close()
+			fmt.Fprintln(os.Stderr, "panic recorded:", x)
+			os.Exit(0)
+		}
+	}()
 	var corpus []string
 	if *corpusPath != "" {
 		corpus = gen.LoadCorpus(*corpusPath)
